@@ -58,12 +58,18 @@ def print_one_flipped(ast, k):
     return render(p.toks, [' '], [' '])[0], state['i'], state['word']
 
 
-def same_tree(a, b, path='root'):
+INVOCATIONS = ('ImplicitInvocationNode', 'ClassInvocationNode', 'BridgeInvocationNode', 'PortInvocationNode')
+
+
+def same_tree(a, b, path='root', merge_invocations=False):
     """parsed vs parsed, keyword-valued fields folded"""
     if a is None or b is None:
         return None if a is None and b is None else '%s: %r vs %r' % (path, a, b)
-    if type(a).__name__ != type(b).__name__:
-        return '%s: %s vs %s' % (path, type(a).__name__, type(b).__name__)
+    ta, tb = type(a).__name__, type(b).__name__
+    if merge_invocations and ta in INVOCATIONS and tb in INVOCATIONS:
+        tb = ta
+    if ta != tb:
+        return '%s: %s vs %s' % (path, ta, tb)
     for name, kind in FIELDS[type(a).__name__]:
         x, y = getattr(a, name), getattr(b, name)
         if kind in 'sk':
@@ -72,7 +78,7 @@ def same_tree(a, b, path='root'):
             if x != y:
                 return '%s.%s: %r vs %r' % (path, name, x, y)
         elif kind == 'n':
-            d = same_tree(x, y, '%s.%s' % (path, name))
+            d = same_tree(x, y, '%s.%s' % (path, name), merge_invocations)
             if d:
                 return d
         else:
@@ -80,7 +86,7 @@ def same_tree(a, b, path='root'):
             if len(x) != len(y):
                 return '%s.%s: %d vs %d children' % (path, name, len(x), len(y))
             for i, (p, q) in enumerate(zip(x, y)):
-                d = same_tree(p, q, '%s.%s[%d]' % (path, name, i))
+                d = same_tree(p, q, '%s.%s[%d]' % (path, name, i), merge_invocations)
                 if d:
                     return d
     return None
